@@ -1,7 +1,7 @@
 INIT Init
 NEXT Next
 CONSTANTS
-  MaxStr = 2
+  MaxStr = 3
   Deep = FALSE
 INVARIANT Lemma_EscapeDecode
 INVARIANT Emit
